@@ -196,6 +196,9 @@ def expected_scope(req, conn, config=None):
 
 def serialize_h1(req, body_upto=None, omit_end=False):
     target = req["path"] + (b"?" + req["query"] if req["query"] is not None else b"")
+    if req.get("absolute"):
+        # absolute-form (RFC 7230 5.3.2), which a server has to accept: the same resource, the same path
+        target = req["absolute"] + req["authority"] + target
     hs = []
     if req.get("host", True):
         hs.append((b"Host", req["authority"]))
